@@ -333,8 +333,9 @@ def truncate_basename(basename, iso_level, is_dir):
 
     # For performance reasons, we first truncate the string to the length
     # allowed.  Second, ISO9660 Levels 1, 2, and 3 require all uppercase names,
-    # so we uppercase it.
-    valid_base = basename[:maxlen].upper()
+    # so we uppercase it.  Uppercasing can lengthen a string (e.g. the German
+    # sharp s becomes 'SS'), so truncate once more afterwards.
+    valid_base = basename[:maxlen].upper()[:maxlen]
 
     # Finally, ISO9660 requires only uppercase letters, 0-9, and underscore.
     # Translate any non-compliant characters to underscore and return that.
@@ -405,7 +406,7 @@ def mangle_file_for_iso9660(orig, iso_level):
         else:
             tmpext = ext.upper()
             valid_ext, numsub = re.subn('[^A-Z0-9_]{1}', r'_', tmpext)
-            if numsub > 0:
+            if numsub > 0 or len(valid_ext) > 3:
                 valid_ext = ''
                 basename = orig
 
